@@ -579,7 +579,7 @@ def run(M,st0,limit=10**10,on_call=None):
                     fr.headvisits=getattr(fr,'headvisits',0)+1
                     if fr.headvisits>=2:
                         # second arrival at the designated loop head: do not unroll; hand the state back (induction)
-                        st.result=('CUT',copy.deepcopy(deref(fr.loc[1].v))); done.append(st); break
+                        st.result=('CUT',copy.deepcopy(deref(fr.loc[1].v))); st.cutframe=fr; done.append(st); break
                 blk=fr.fn.blocks[fr.bb]
                 s=blk[fr.ip]; fr.ip+=1; M.stats['stmts']+=1
                 if M.stats['stmts']>limit: raise Unsupported('step limit')
@@ -1456,31 +1456,28 @@ def call_model(M,st,fr,callee,args):
     if c=='core::str::<impl str>::is_ascii':
         b=deref(args[0]).b
         return mkbool(z3.And(*[z3.ULT(x.z(),0x80) for x in b if not is_num(x)])) if any(not is_num(x) for x in b) else Bool(True)
-    if c=='str::<impl str>::replace::<&str>':
-        sv=deref(args[0]); pat=deref(args[1]); to=deref(args[2])
-        if len(pat.b)!=1 or to.b: raise Unsupported('replace pattern')
-        out=[]
-        for x in sv.b:
-            if is_num(x): out.append(x); continue
-            if not x.conc():
-                # a symbolic byte: fine as long as the path condition decides whether it is the pattern byte
-                can=M.feasible(st.pc,x.z()==pat.b[0].v)
-                if not can: out.append(x); continue
-                if M.feasible(st.pc,x.z()!=pat.b[0].v): raise Unsupported('replace: a symbolic byte may or may not be the pattern')
-                continue
-            if x.v!=pat.b[0].v: out.append(x)
-        return PyObj('string',b=out)
-    if c=='core::str::<impl str>::split::<&str>':
-        sv=deref(args[0]); pat=deref(args[1]); pieces=[[]]
-        for x in sv.b:
-            if (not is_num(x)) and x.conc() and x.v==pat.b[0].v: pieces.append([])
-            elif (not is_num(x)) and not x.conc():
-                can=M.feasible(st.pc,x.z()==pat.b[0].v)
-                if not can: pieces[-1].append(x)
-                elif M.feasible(st.pc,x.z()!=pat.b[0].v): raise Unsupported('split: a symbolic byte may or may not be the separator')
-                else: pieces.append([])
-            else: pieces[-1].append(x)
-        return PyObj('iter',src='list',items=[Str(p) for p in pieces],pos=0)
+    if c=='str::<impl str>::replace::<&str>' or c=='core::str::<impl str>::split::<&str>':
+        sv=deref(args[0]); pat=deref(args[1]); is_split=c.endswith('split::<&str>')
+        if len(pat.b)!=1 or (not is_split and deref(args[2]).b): raise Unsupported('replace/split pattern')
+        pb=pat.b[0].v
+        class _Scan(Native):
+            """walk the bytes; a symbolic byte that may or may not be the pattern byte forks the path"""
+            def __init__(s): s.i=0; s.asked=False; s.isp=[]
+            def step(s,M_,st_):
+                while s.i<len(sv.b):
+                    x=sv.b[s.i]
+                    if is_num(x): s.isp.append(False); s.i+=1; continue
+                    if x.conc(): s.isp.append(x.v==pb); s.i+=1; continue
+                    if not s.asked: s.asked=True; return ('branch',x.z()==pb)
+                    s.isp.append(bool(s.taken)); s.asked=False; s.i+=1
+                if is_split:
+                    pieces=[[]]
+                    for x,isp in zip(sv.b,s.isp):
+                        if isp: pieces.append([])
+                        else: pieces[-1].append(x)
+                    return ('ret',PyObj('iter',src='list',items=[Str(p_) for p_ in pieces],pos=0))
+                return ('ret',PyObj('string',b=[x for x,isp in zip(sv.b,s.isp) if not isp]))
+        return _Scan()
     if c=="<std::str::Split<'_, &str> as IntoIterator>::into_iter": return args[0]
     if c=="<std::str::Split<'_, &str> as Iterator>::next":
         it=deref(args[0])
